@@ -697,5 +697,5 @@ package ion
 
 //@ func (*reader).Err
 //@ modifies nothing
-//@ ensures[C07] result == r.err
+//@ ensures[C07] err == r.err
 //@ safe[C06]
